@@ -78,7 +78,11 @@ XMag(f, B, p, v) ==
     [] f = "dense" -> LET nd == Min2(pp, 45) IN [m |-> DenseMag(B, nd, v + 7 * B), e |-> -nd + Pick1(<<-1, 0, 1>>, v)]
     \* more digits than the precision AND a magnitude below 1/B (the branch of exp_m1 / ln_1p without scaling): the rounding
     \* of the argument on entry must happen at the working precision, not at the target precision
-    [] f = "small-wide" -> LET nd == Min2(2 * pp + 3, 48) IN [m |-> DenseMag(B, nd, v + 5 * B), e |-> -nd - Pick1(<<1, 2, pp>>, v)]
+    \* (dense digits, or 1000...01: just above a power of the base, where a directed rounding of the ARGUMENT to the target
+    \* precision moves the result across that power)
+    [] f = "small-wide" -> LET nd == Min2(2 * pp + 3, 48) IN
+                           [m |-> IF (v \div 3) % 2 = 0 THEN DenseMag(B, nd, v + 5 * B) ELSE Add(PowB(B, nd - 1), One),
+                            e |-> -nd - Pick1(<<1, 2, pp>>, v)]
 
 \* integer exponent of powi, bounded so that the exact power stays below about 300 digits
 NOf(ec, v, weight) ==
